@@ -13,10 +13,11 @@ const char *harness_name = "h_route" ;
 static MemDev dev ;
 static char tmpdir [400] ;
 
-enum { R_VIO = 0, R_PATH, R_FD_KEEP, R_FD_CLOSE, R_EMBED1, R_EMBED44, R_EMBED4097, R_PIPE, R_NROUTES } ;
-static const char *route_name [R_NROUTES] = { "vio", "path", "fd-keep", "fd-close", "embed@1", "embed@44", "embed@4097", "pipe" } ;
-static const char *route_class [R_NROUTES] = { "vio", "path", "fd", "fd", "embed", "embed", "embed", "pipe" } ;
-static const int embed_off [R_NROUTES] = { 0, 0, 0, 0, 1, 44, 4097, 0 } ;
+enum { R_VIO = 0, R_PATH, R_FD_KEEP, R_FD_CLOSE, R_EMBED1, R_EMBED44, R_EMBED4097, R_EMBED20END, R_PIPE, R_NROUTES } ;
+static const char *route_name [R_NROUTES] = { "vio", "path", "fd-keep", "fd-close", "embed@1", "embed@44", "embed@4097", "embed@20-last", "pipe" } ;
+static const char *route_class [R_NROUTES] = { "vio", "path", "fd", "fd", "embed", "embed", "embed", "embed", "pipe" } ;
+static const int embed_off [R_NROUTES] = { 0, 0, 0, 0, 1, 44, 4097, 20, 0 } ;
+static const int embed_trail [R_NROUTES] = { 0, 0, 0, 0, 37, 37, 37, 0, 0 } ;	/* bytes of other data behind the embedded file; the last one is the last thing in its container */
 
 typedef struct
 {	int opened, err ; SF_INFO info ; uint64_t samples [T_NTYPES] ; sf_count_t nread [T_NTYPES] ; uint64_t strings ; int fd_open_after, lib_fds_after, close_rc ;
@@ -55,10 +56,10 @@ static SNDFILE *open_read (int route, const Fmt *f, int ch, const unsigned char 
 			sio_track_close_of (fd) ;
 			INLIB (sf = sf_open_fd (fd, SFM_READ, info, route == R_FD_CLOSE)) ; *fd_out = fd ;
 			break ;
-		case R_EMBED1 : case R_EMBED44 : case R_EMBED4097 :
+		case R_EMBED1 : case R_EMBED44 : case R_EMBED4097 : case R_EMBED20END :
 			fd = sio_memfd ("c14e") ;
 			for (int k = 0 ; k < embed_off [route] ; k += 64) write_all (fd, junk, embed_off [route] - k < 64 ? embed_off [route] - k : 64) ;
-			write_all (fd, bytes, len) ; write_all (fd, junk, 37) ;
+			write_all (fd, bytes, len) ; write_all (fd, junk, embed_trail [route]) ;
 			sio_real_lseek (fd, embed_off [route], SEEK_SET) ;
 			sio_track_close_of (fd) ;
 			INLIB (sf = sf_open_fd (fd, SFM_READ, info, SF_FALSE)) ; *fd_out = fd ;
@@ -125,7 +126,7 @@ static uint64_t compare_routes (const Fmt *f, int ch, const unsigned char *bytes
 {	Obs ref, o ; int major = f->format & SF_FORMAT_TYPEMASK ; uint64_t oh = VL_H0 ;
 	observe_read (R_VIO, f, ch, bytes, len, &ref) ;
 	for (int route = R_PATH ; route < R_NROUTES ; route++)
-	{	int is_embed = route >= R_EMBED1 && route <= R_EMBED4097, pipe_ok ;
+	{	int is_embed = route >= R_EMBED1 && route <= R_EMBED20END, pipe_ok ;
 		if (route == R_PIPE)
 		{	pipe_ok = (major == SF_FORMAT_WAV || major == SF_FORMAT_WAVEX || major == SF_FORMAT_AIFF || major == SF_FORMAT_AU) && f->gran && len < 900000 && variant == 0 ;	/* the pipe claim is about well-formed files */
 			if (! pipe_ok) continue ;
